@@ -3,7 +3,8 @@
 (* A trace is [blind, events]; an event is a record with a `name` and the  *)
 (* fields its action needs:                                                *)
 (*   Start[ow, pre, dest, n]  Skip  Open[target]  Write  Flush  Close      *)
-(*   Crash[kind]  End[raised]  Observe[cls, others, dest]  Rerun           *)
+(*   Fault[kind]  End[raised]  Observe[cls, others, dest]  Rerun           *)
+(* A Close event on a broken output is the giving up of that output.       *)
 (* Many traces per TLC run: `tid` is chosen in TraceInit, `l` counts the   *)
 (* consumed events, register tid keeps the furthest l reached; a trace is  *)
 (* accepted iff all its events were consumed.  In a `blind` trace the I/O  *)
@@ -30,8 +31,8 @@ Step(e) ==
     [] e.name = "Open"    -> Open(e.target)
     [] e.name = "Write"   -> Write
     [] e.name = "Flush"   -> Flush
-    [] e.name = "Close"   -> Close
-    [] e.name = "Crash"   -> Crash(e.kind)
+    [] e.name = "Close"   -> Close \/ Abandon
+    [] e.name = "Fault"   -> Fault(e.kind)
     [] e.name = "End"     -> End(e.raised)
     [] e.name = "Observe" -> Observe(e.cls, e.others, e.dest)
     [] e.name = "Rerun"   -> Rerun
